@@ -1,4 +1,6 @@
 import StraxModel.Lemmas.FSStep
+import StraxModel.Model.StorePolicy
+import StraxModel.Generated.StorePolicy
 /-
   C04 — a crash or I/O failure never leaves wrong data visible as valid.
 
@@ -7,23 +9,23 @@ import StraxModel.Lemmas.FSStep
   Invariant and its preservation by every step: `Lemmas/FS*.lean`.
 
   `Reach cs fs`: `fs` is reachable from the empty file system by ANY number of `make` attempts for the chunk list
-  `cs`, each under the serial or the executor variant (NOT the forked one, see below), any handler behaviour (extra
+  `cs`, each under ANY of the three variants (serial, executor, forked = inlined savers), any handler behaviour (extra
   chunks flushed by the single-thread processor's SaverSpy, abandoned savers), any schedule of saver thread / chunk
   writers / writes the handler does not wait for / rmtree order, any faults (any operation raising, exceptions thrown
   in from elsewhere) and stopped at ANY point (process death).
   All statements are for the protocol as it is in /repo now (D3, D12, D26 fixed); the three old behaviours are
   kept as switches of the model and refuted by `decide` on concrete witnesses (`…_old_counterexample`).
 
-  PARTIAL.  The forked variant (savers inlined into a ParallelSourcePlugin, chunk + per-chunk metadata written inside
-  `do_compute` in a pool task) is modelled as the code is since the D35 fix: `cleanup` waits for the pool tasks, looks
-  at their results and, if one failed, closes the inlined savers inside that exception's context (`waitAll` before the
-  close; the caller learns about a failure from the mailbox readers as well).  The universally quantified theorems
-  below are still proved for the serial and executor variants only (`v ≠ .forked` inside `Reach` and explicitly, suffix
-  `_partial`): the invariant's bookkeeping for chunk writers that also write the metadata file (first-chunk flush of
-  a forked copy) and per-chunk metadata files was not re-established for the fixed protocol in this round.  For the
-  forked variant there are witnesses by `decide` (`forked_failure_recorded_example`, `retry_heals_forked_example`), the
-  refutation of the unfixed cleanup (`…_forked_old_counterexample`), and the operation-level correspondence of the
-  check on strax's real inlined-saver path.
+  Round 5: the forked variant (savers inlined into a ParallelSourcePlugin, chunk + per-chunk metadata written inside
+  `do_compute` in a pool task, first-chunk flush of the forked copy's own metadata) is inside every universally
+  quantified theorem below: the invariant of `Lemmas/FS*.lean` was re-established for the protocol as it is since the
+  D35 fix (`cleanup` waits for the pool tasks, looks at their results and closes the inlined savers inside a failed
+  task's exception: `waitAll` before the close).  What makes it go through: a forked saver is never driven by
+  `save_from`, so it never has a chunk write that "has not reached `pending`" (`Side.nmu`); hence every write the
+  handler does not wait for is an executor-variant data-file write and leaves the metadata file alone, and the forked
+  copies, which DO write the metadata file, are all waited for before the final flush.  The unfixed cleanup stays
+  refuted by `…_forked_old_counterexample`.
+  Still partial: `retry_heals_partial` (the half "a fault-free retry always ends in success" is witnessed, not proved).
 -/
 namespace Strax.C04
 open Strax Strax.FS
@@ -34,7 +36,7 @@ open Strax Strax.FS
 ended, no exception" then it lists exactly the chunks `cs` and every chunk file it names is in place with the right
 rows.  (In the machine the final name appears only through `renameDir temp final` after a metadata flush; this is
 what that buys.) -/
-theorem final_dir_consistent_partial {cs : List Chunk} (hcs : cs ≠ []) {fs : FS} (h : Reach cs fs) :
+theorem final_dir_consistent {cs : List Chunk} (hcs : cs ≠ []) {fs : FS} (h : Reach cs fs) :
     ∀ d, fs.final = some d → ∃ m, d.get .md = some (.json m) ∧
       (m.good = true → m.chunks.isEmpty = false ∧ loadChunks d m.chunks = .ok cs) := by
   intro d hd
@@ -44,52 +46,53 @@ theorem final_dir_consistent_partial {cs : List Chunk} (hcs : cs ≠ []) {fs : F
   · rename_i m hm; exact ⟨m, hm, hs⟩
   · exact absurd hs id
 
-/-! ## crash safety (serial and executor variants; forked: witnesses below) -/
+/-! ## crash safety (all three variants) -/
 
 /-- After any fault sequence, at any point of death: what `find` (hence `is_stored`) reports available loads
 completely and equals the correct chunks; everything else is reported unavailable by `DataNotAvailable` — never by
 another exception. -/
-theorem crash_safe_partial {cs : List Chunk} (hcs : cs ≠ []) {fs : FS} (h : Reach cs fs) :
+theorem crash_safe {cs : List Chunk} (hcs : cs ≠ []) {fs : FS} (h : Reach cs fs) :
     (visible fs = true → loads fs = .ok cs) ∧ (visible fs = false → find fs = .error .dataNotAvailable) := by
   rcases safe_visible (reach_safe hcs h) with ⟨hf, hl⟩ | hf
   · exact ⟨fun _ => hl, fun hv => by simp [visible, hf, Except.toBool] at hv⟩
   · exact ⟨fun hv => by simp [visible, hf, Except.toBool] at hv, fun _ => hf⟩
 
 /-- The same for a configuration in the middle of an attempt (the process may die right there). -/
-theorem crash_safe_midway_partial {cs : List Chunk} (hcs : cs ≠ []) {fs : FS} (h : Reach cs fs) (hst : start fs = .save)
-    (v : Variant) (hs : HandlerSpec) (hv : v ≠ .forked) (hsv : hs.variant ≠ .forked) (acts : List Act) {c : Cfg}
+theorem crash_safe_midway {cs : List Chunk} (hcs : cs ≠ []) {fs : FS} (h : Reach cs fs) (hst : start fs = .save)
+    (v : Variant) (hs : HandlerSpec) (acts : List Act) {c : Cfg}
     (hrun : run (initCfg fs v {} cs hs) acts = some c) :
     (visible c.fs = true → loads c.fs = .ok cs) ∧ (visible c.fs = false → find c.fs = .error .dataNotAvailable) :=
-  crash_safe_partial hcs (Reach.attempt h hv hsv hst hrun)
+  crash_safe hcs (Reach.attempt h hst hrun)
 
 /-- No reachable state makes a later request fail up front: the state "final directory without metadata"
 (D12) is unreachable, `find` never raises `DataCorrupted`, so an identical request either finds the data or
 recomputes it — no manual cleanup. -/
-theorem retry_never_refused_partial {cs : List Chunk} (hcs : cs ≠ []) {fs : FS} (h : Reach cs fs) :
+theorem retry_never_refused {cs : List Chunk} (hcs : cs ≠ []) {fs : FS} (h : Reach cs fs) :
     D12 fs = false ∧ start fs ≠ .corrupted := by
   refine ⟨?_, ?_⟩
   · unfold D12
     cases hf : fs.final with
     | none => rfl
     | some d =>
-      obtain ⟨m, hm, _⟩ := final_dir_consistent_partial hcs h d hf
+      obtain ⟨m, hm, _⟩ := final_dir_consistent hcs h d hf
       simp [hm]
   · rcases safe_visible (reach_safe hcs h) with ⟨hf, _⟩ | hf <;> simp [start, hf]
 
-/-! ## failures are reported (serial and executor variants) -/
+/-! ## failures are reported (all three variants) -/
 
 /-- If any FS operation of the protocol raised — on the saver thread or in a chunk write on the executor, waited for
 or not — the saver's part of the attempt (`save_from` + `close`, `Cfg.out`) never ends in "success": the exception
 leaves `save_from` / `close`.  (Includes the D3 statement: a failed executor write is never swallowed.)  That the
 processor hands that exception to the caller of `make` is the one boolean `lostClose = false`: both processors look
 at an exception of the final `close` since the D26 fix; tied by the check's oracle, not proved about the processors.
-Inlined (forked) savers: witnesses only, see `forked_failure_recorded_example` and
-`failure_unrecorded_forked_old_counterexample` (before the D35 fix). -/
-theorem failure_reported_partial {cs : List Chunk} (hcs : cs ≠ []) {fs : FS} (h : Reach cs fs) (v : Variant)
-    (hs : HandlerSpec) (hv : v ≠ .forked) (hsv : hs.variant ≠ .forked)
+Inlined (forked) savers are included: a failed pool task is seen by `cleanup` (`waitAll`), which closes the saver inside
+that exception; `failure_unrecorded_forked_old_counterexample` is the behaviour before the D35 fix.
+Hypothesis `hl` excludes only the pre-D26 processor (`close_failure_lost_old_counterexample`). -/
+theorem failure_reported {cs : List Chunk} (hcs : cs ≠ []) {fs : FS} (h : Reach cs fs) (v : Variant)
+    (hs : HandlerSpec)
     (hl : hs.lostClose = false) (acts : List Act) {c : Cfg} (hrun : run (initCfg fs v {} cs hs) acts = some c)
     (hf : c.failed = true) : c.out ≠ .success := by
-  have hI := inv_init (reach_safe hcs h) v hs hv hsv
+  have hI := inv_init (reach_safe hcs h) v hs
   have hR := rep_run hcs acts hI hl (rep_init fs v cs hs) hrun
   intro hsu
   obtain ⟨hh, _, hok⟩ := hR.f2 hsu
@@ -102,19 +105,18 @@ theorem failure_reported_partial {cs : List Chunk} (hcs : cs ≠ []) {fs : FS} (
 
 /- Full statement: from any state reachable by any fault sequence, a full fault-free run of the protocol (any
    schedule) terminates in "success" with the data stored completely and correctly.
-   Proved: (1) `retry_never_refused_partial` — the retry is never refused and starts (or finds the data already stored and
-   correct, `crash_safe_partial`); (2) `retry_heals_partial` — whenever the retry ends in "success" (any schedule, any
-   variant but the forked one) the data is visible, loads completely and equals the correct chunks; (3)
-   `failure_reported_partial` — it can
+   Proved: (1) `retry_never_refused` — the retry is never refused and starts (or finds the data already stored and
+   correct, `crash_safe`); (2) `retry_heals_partial` — whenever the retry ends in "success" (any schedule, any of the
+   three variants) the data is visible, loads completely and equals the correct chunks; (3) `failure_reported` — it can
    only end otherwise if an operation raised or an exception was thrown in.
    Missing: that a fault-free run cannot hit an operation that fails for a reason of the file-system state
    (e.g. `mkdir` of an existing directory) and that every schedule terminates.  Both are exercised by the check
    (every fault run is followed by a clean retry on the real code and in the model) and witnessed below by `decide`
    for the three variants from the empty directory, a stale temp directory and broken final data. -/
 theorem retry_heals_partial {cs : List Chunk} (hcs : cs ≠ []) {fs : FS} (h : Reach cs fs) (v : Variant) (hs : HandlerSpec)
-    (hv : v ≠ .forked) (hsv : hs.variant ≠ .forked) (hl : hs.lostClose = false) (acts : List Act) {c : Cfg} (hrun : run (initCfg fs v {} cs hs) acts = some c)
+    (hl : hs.lostClose = false) (acts : List Act) {c : Cfg} (hrun : run (initCfg fs v {} cs hs) acts = some c)
     (hsu : c.out = .success) : visible c.fs = true ∧ loads c.fs = .ok cs := by
-  have hI := inv_init (reach_safe hcs h) v hs hv hsv
+  have hI := inv_init (reach_safe hcs h) v hs
   have hR := rep_run hcs acts hI hl (rep_init fs v cs hs) hrun
   obtain ⟨d, m, hd, hm, hg⟩ := hR.succ hsu
   have hsafe := (inv_run hcs acts hI hrun).safe
@@ -126,6 +128,57 @@ theorem retry_heals_partial {cs : List Chunk} (hcs : cs ≠ []) {fs : FS} (h : R
   simp only [Meta.good, Bool.and_eq_true, Bool.not_eq_true'] at hg
   have hfind : find c.fs = .ok () := by simp [find, hd, hgm, hg.1, hg.2]
   exact ⟨by simp [visible, hfind, Except.toBool], by simp [loads, hfind, hgm, hne, hd, hload]⟩
+
+/-! ## which data counts as broken and may be replaced: the decision logic, regenerated from the Python source
+
+`Generated.canOverwrite` / `brokenCheck` / `writeRefused` are re-derived from the AST of `StorageFrontend._can_overwrite`,
+the `check_broken` block of `StorageFrontend.find` and the write branch of `DataDirectory._find` on every run of the
+check (`checks/props/c04.py:regen`); a change of that source changes the generated text and breaks a proof below. -/
+
+theorem gen_canOverwrite_eq_model (p : Overwrite) (m : Meta) :
+    Generated.canOverwrite p.name m.ended m.exc = canOverwrite p m := by
+  cases p <;> cases hm : m.ended <;> cases he : m.exc <;>
+    simp [Generated.canOverwrite, canOverwrite, Overwrite.name, Meta.good, hm, he]
+
+theorem gen_brokenCheck_eq_model (allowIncomplete : Bool) (m : Meta) :
+    Generated.brokenCheck allowIncomplete m.ended m.exc = brokenCheck allowIncomplete m := by
+  cases allowIncomplete <;> cases hm : m.ended <;> cases he : m.exc <;>
+    simp [Generated.brokenCheck, brokenCheck, hm, he]
+
+theorem gen_writeRefused_eq_model (dirExists : Bool) (p : Overwrite) (m : Meta) :
+    Generated.writeRefused dirExists (Generated.canOverwrite p.name m.ended m.exc) = writeRefused dirExists p m := by
+  rw [gen_canOverwrite_eq_model]; rfl
+
+/-- the reader of the machine model (`find`, the default options) IS that check applied to the metadata of the final
+directory: what the theorems above say about `find` / `visible` they say about the generated function -/
+theorem find_eq_generated {fs : FS} {d : Dir} {m : Meta} (hd : fs.final = some d) (hm : getMetadata fs = .ok m) :
+    find fs = Generated.brokenCheck false m.ended m.exc := by
+  rw [gen_brokenCheck_eq_model]
+  cases hx : m.exc <;> cases hn : m.ended <;> simp [find, hd, hm, brokenCheck, hx, hn]
+
+/-- Broken data never blocks a retry (default policy `if_broken`): whenever the reader reports existing data as not
+available, the writer's `_find(write=True)` does not raise `DataExistsError` — stated of the generated functions, for
+every combination of "writing_ended" / "exception" in the metadata -/
+theorem generated_broken_is_replaceable (dirExists ended exc : Bool)
+    (h : Generated.brokenCheck false ended exc = .error .dataNotAvailable) :
+    Generated.writeRefused dirExists (Generated.canOverwrite "if_broken" ended exc) = false := by
+  revert h; cases dirExists <;> cases ended <;> cases exc <;> simp [Generated.brokenCheck, Generated.writeRefused, Generated.canOverwrite]
+
+/-- … and data the reader accepts as valid is never replaced under the default policy, nor under `never` -/
+theorem generated_valid_is_kept (ended exc : Bool) (h : Generated.brokenCheck false ended exc = .ok ()) :
+    Generated.canOverwrite "if_broken" ended exc = false ∧ Generated.canOverwrite "never" ended exc = false ∧
+      Generated.writeRefused true (Generated.canOverwrite "if_broken" ended exc) = true := by
+  revert h; cases ended <;> cases exc <;> simp [Generated.brokenCheck, Generated.writeRefused, Generated.canOverwrite]
+
+/-- the check never raises anything but `DataNotAvailable` (an `is_stored` built on it cannot escape with another error) -/
+theorem generated_check_only_unavailable (a ended exc : Bool) :
+    Generated.brokenCheck a ended exc = .ok () ∨ Generated.brokenCheck a ended exc = .error .dataNotAvailable := by
+  cases a <;> cases ended <;> cases exc <;> simp [Generated.brokenCheck]
+
+/-- non-vacuity: both hypotheses are met (complete metadata; metadata with an exception) -/
+example : Generated.brokenCheck false true false = .ok () ∧
+    Generated.brokenCheck false true true = .error .dataNotAvailable ∧
+    Generated.brokenCheck false false false = .error .dataNotAvailable := by simp [Generated.brokenCheck]
 
 /-! ## witnesses (`decide`), non-vacuity -/
 
@@ -158,7 +211,12 @@ def twoAttempts (v : Variant) (pr : Proto) (hs : HandlerSpec) (o : RmOrder) (f1 
 /-- `Reach` is inhabited beyond the empty file system: everything the driver's scheduler produces is reachable, e.g.
 broken data left behind by an I/O error followed by a death in the middle of its removal -/
 example : Reach [c1, c2] (twoAttempts .serial {} (specOf .serial) .metaFirst [⟨9, .exc⟩] [⟨4, .dieAfter⟩]).1.fs :=
-  attempt_reach (attempt_reach Reach.empty _ _ _ _ (by decide) (by decide)) _ _ _ _ (by decide) (by decide)
+  attempt_reach (attempt_reach Reach.empty _ _ _ _) _ _ _ _
+
+/-- … and what a forked (inlined) saver leaves behind when the write of a per-chunk metadata file raises, followed by an
+second forked attempt during which the process dies -/
+example : Reach [c1, c2] (twoAttempts .forked {} (specOf .forked) .metaLast [⟨11, .exc⟩] [⟨7, .dieAfter⟩]).1.fs :=
+  attempt_reach (attempt_reach Reach.empty _ _ _ _) _ _ _ _
 
 /-- a retry heals: serial variant, after an exception that left broken data (final directory with "exception") -/
 theorem retry_heals_serial_example :
@@ -176,7 +234,7 @@ theorem retry_heals_forked_example :
     let r := twoAttempts .forked {} (specOf .forked) .metaLast [⟨11, .exc⟩] []
     r.2 = .success ∧ visible r.1.fs = true ∧ (loads r.1.fs).toOption = some [c1, c2] := by decide
 
-/-! ## the forked variant (inlined savers): fixed behaviour by witnesses, the unfixed cleanup refuted (D35) -/
+/-! ## the forked variant (inlined savers): the unfixed cleanup refuted (D35); the fixed behaviour on the same faults -/
 
 def c3 : Chunk := { c1 with start := 20, stop := 30, rows := [⟨21, 22, 5⟩] }
 
